@@ -32,6 +32,8 @@ inductive Rpc
   | signal (id name : Nat) (sig : Int)
   | shutdown (id : Nat)
   | restart (id : Nat)
+  | addGroup (id gid : Nat)
+  | removeGroup (id gid : Nat)
 deriving Repr, DecidableEq
 
 inductive Deferred
@@ -62,6 +64,7 @@ deriving Repr, DecidableEq
 
 structure Sup where
   procs : List PE
+  dormant : List PE := []      -- configured groups that are not active (options.process_group_configs only)
   mood : Int := 1
   stopping : Bool := false
   stopGroups : List Nat := []
@@ -262,6 +265,23 @@ def rpcOne (r : Rpc) : M := sguard fun s =>
   | .restart id =>
     if Sv.ilt s.mood moodRUNNING then semit (.answer id faultSHUTDOWN_STATE false) s
     else { s with mood := moodRESTARTING } |> semit (.answer id faultSUCCESS false)
+  | .addGroup id gid =>
+    -- rpcinterface.addProcessGroup → Supervisor.add_process_group: fresh processes, appended to process_groups
+    if Sv.ilt s.mood moodRUNNING then semit (.answer id faultSHUTDOWN_STATE false) s
+    else if (s.dormant.filter (·.gid == gid)).isEmpty then
+      if (s.procs.filter (·.gid == gid)).isEmpty then semit (.answer id faultBAD_NAME false) s
+      else semit (.answer id faultALREADY_ADDED false) s
+    else
+      { s with procs := s.procs ++ (s.dormant.filter (·.gid == gid)).map (fun e => { e with p := {} }),
+               dormant := s.dormant.filter (·.gid != gid) } |> semit (.answer id faultSUCCESS false)
+  | .removeGroup id gid =>
+    if Sv.ilt s.mood moodRUNNING then semit (.answer id faultSHUTDOWN_STATE false) s
+    else if (s.procs.filter (·.gid == gid)).isEmpty then semit (.answer id faultBAD_NAME false) s
+    else if !(unstopped (members s.procs gid)).isEmpty then semit (.answer id faultSTILL_RUNNING false) s
+    else
+      { s with procs := s.procs.filter (·.gid != gid),
+               dormant := s.dormant ++ (s.procs.filter (·.gid == gid)).map (fun e => { e with p := {} }) }
+        |> semit (.answer id faultSUCCESS false)
   | .start id name wait missing =>
     if Sv.ilt s.mood moodRUNNING then semit (.answer id faultSHUTDOWN_STATE false) s else
     match findPE s.procs name with
@@ -378,9 +398,13 @@ def pollAll : M := sguard fun s =>
   ds.foldl (fun acc d => pollDeferred d acc) { s with pending := [] }
 
 /-- `for group in pgroups: group.transition()`: groups by ascending priority (stable), members in
-    configuration order -/
-def transitions : M := sguard fun s =>
-  ((sortedGroups s).flatMap fun g => (members s.procs g.1).map (·.name)).foldl (fun acc n => procTransition n acc) s
+    configuration order; in which a pass transitions the processes: `pgroups` is computed at the top of the loop
+    iteration, i.e. before this pass's RPCs could add or remove a group -/
+def transitionOrder (s : Sup) : List Nat :=
+  (sortedGroups s).flatMap fun g => (members s.procs g.1).map (·.name)
+
+def transitions (order : List Nat) : M := sguard fun s =>
+  order.foldl (fun acc n => procTransition n acc) s
 
 /-- **one pass of `runforever()`**, cut at the poll point (the main-loop boundary): what happens
     from one `poll()` to the next — read events (RPCs), write events (deferred answers),
@@ -388,10 +412,11 @@ def transitions : M := sguard fun s =>
     iteration (shutdown test, phase 1, exit test), all under one clock reading. -/
 def pass (env : Env) : M := sguard fun s =>
   let hadPending := !s.pending.isEmpty
+  let order := transitionOrder s
   { s with env := env }
     |> (fun s => env.rpcs.foldl (fun acc r => rpcGuarded r acc) s)
     |> (fun s => if hadPending then pollAll s else s)
-    |> transitions
+    |> transitions order
     |> reap
     |> handleSignal
     |> shutdownPhase2
